@@ -41,7 +41,7 @@ func freeCall(x *core.X, ins ssa.Instruction) (cmd string, ok bool) {
 }
 
 func checkC03(p *core.Prog, r *core.Report) {
-	r.Explanation = "Decides structural necessary conditions of exactly-one-reply: (R1) on every path of LockDB.Lock/UnLock (with the helpers that finish a request inlined) the request is answered exactly once, or not at all with exactly one recorded deferral (queued as waiter, ack pending, retry recursion, hand-over); (R2) the asynchronous repliers doTimeOut/doExpried/DoAckLock reply only after a test-and-set of the hold's tombstone inside one shard-mutex section, at most once per path, with the hold's own command and protocol loaded under the mutex; (R3) wakeUpWaitLock/cancelWaitLock tombstone the wait before releasing the mutex and replying; (R4) the text protocol delivers a reply only when its RequestId equals the connection's current lockRequestId; (R5) no pooled command is freed twice or freed while a live hold retains it, on any path. NOT decided: races between goroutines beyond the mutex/tombstone premises, delivery order on the wire, routing through ProxyServerProtocol (C18)."
+	r.Explanation = "Decides structural necessary conditions of exactly-one-reply: (R1) on every path of LockDB.Lock/UnLock (with the helpers that finish a request inlined) the request is answered exactly once, or not at all with exactly one recorded deferral (queued as waiter, ack pending, retry recursion, hand-over); (R2) the asynchronous repliers doTimeOut/doExpried/DoAckLock reply only after a test-and-set of the hold's tombstone inside one shard-mutex section, at most once per path, with the hold's own command and protocol loaded under the mutex; (R3) wakeUpWaitLock/cancelWaitLock tombstone the wait before releasing the mutex and replying; (R4) the text protocol delivers a reply only when its RequestId equals the connection's current lockRequestId; (R5) no pooled command is freed twice or freed while a live hold retains it, on any path; (R6) the text protocol zeroes that request-id filter before it hands a reply to its connection, on every path (a later notice for the same request cannot become a second answer). NOT decided: races between goroutines beyond the mutex/tombstone premises, delivery order on the wire, routing through ProxyServerProtocol (C18)."
 	r.Assumptions = []string{
 		"Go type checker, go/ssa and VTA call graph are correct for /repo",
 		"a reply is a call of a method named ProcessLockResultCommand[Locked]",
@@ -52,6 +52,7 @@ func checkC03(p *core.Prog, r *core.Report) {
 	c03R3(p, r)
 	c03R4(p, r)
 	c03R5(p, r)
+	c03R6(p, r)
 }
 
 // finishing helpers: they answer or hand over the request they are given.
@@ -549,4 +550,101 @@ func c03R5(p *core.Prog, r *core.Report) {
 			r.Fail("C03/R5 %s: %s", name, ex.Imprecise)
 		}
 	}
+}
+
+// ---------------------------------------------------------------------------
+// R6 text protocol: the late-reply filter is disarmed before a reply is handed
+// to the connection. The filter (lockRequestId) is what lets an asynchronous
+// notice through; left armed after the answer was delivered, a later notice
+// for the same request (expiry of the hold) passes it and is queued as a
+// second frame, which the client reads as the answer to its next command.
+func c03R6(p *core.Prog, r *core.Report) {
+	const rule = "C03/R6"
+	r.Rule(rule, "TextServerProtocol hands a reply to its connection (send on lockWaiter) only after zeroing the request-id filter lockRequestId on the same path", 2)
+	filter := fk("server.TextServerProtocol", "lockRequestId")
+	n := 0
+	for _, fn := range p.FuncsIn("server") {
+		if fn.Blocks == nil || p.IsNewFunc(fn) || recvName(fn) != "TextServerProtocol" {
+			continue
+		}
+		sends := false
+		for _, b := range fn.Blocks {
+			for _, ins := range b.Instrs {
+				if s, ok := ins.(*ssa.Send); ok {
+					if u, ok := s.Chan.(*ssa.UnOp); ok {
+						if fa, ok := u.X.(*ssa.FieldAddr); ok && core.FieldKeyOf(fa.X.Type(), fa.Field).Field == "lockWaiter" {
+							sends = true
+						}
+					}
+				}
+			}
+		}
+		if !sends {
+			continue
+		}
+		name := core.FuncName(fn)
+		ex := core.NewExplorer(p, core.Hooks{
+			Instr: func(x *core.X) {
+				if st, ok := x.Ins.(*ssa.Store); ok {
+					// whole-array store or one element
+					if fa, ok := st.Addr.(*ssa.FieldAddr); ok && core.FieldKeyOf(fa.X.Type(), fa.Field) == filter {
+						base := core.Plain(x.Canon(fa.X).S)
+						if strings.HasPrefix(x.Canon(st.Val).S, "[16]byte{}") || isZeroValue(st.Val) {
+							x.Set("z:"+base, "65535")
+						} else {
+							x.Set("z:"+base, "")
+						}
+						return
+					}
+					if ia, ok := st.Addr.(*ssa.IndexAddr); ok {
+						if fa, ok := ia.X.(*ssa.FieldAddr); ok && core.FieldKeyOf(fa.X.Type(), fa.Field) == filter {
+							base := core.Plain(x.Canon(fa.X).S)
+							ic, okI := ia.Index.(*ssa.Const)
+							vc, okV := st.Val.(*ssa.Const)
+							mask := 0
+							fmt.Sscanf(x.Get("z:"+base), "%d", &mask)
+							if okI && okV && vc.Int64() == 0 {
+								mask |= 1 << uint(ic.Int64())
+							} else if okI {
+								mask &^= 1 << uint(ic.Int64())
+							} else {
+								mask = 0
+							}
+							x.Set("z:"+base, fmt.Sprint(mask))
+						}
+					}
+					return
+				}
+				s, ok := x.Ins.(*ssa.Send)
+				if !ok {
+					return
+				}
+				ch := core.Plain(x.Canon(s.Chan).S)
+				if !strings.HasSuffix(ch, ".lockWaiter") {
+					return
+				}
+				n++
+				base := strings.TrimSuffix(ch, ".lockWaiter")
+				key := siteKey(p, x.Ins)
+				if x.Get("z:"+base) == "65535" {
+					r.Hold(rule, key, x.Pos(), "filter zeroed before the hand-over")
+				} else {
+					r.Violate(rule, key, x.Pos(), "a reply is handed to the connection with the request-id filter still armed: a later asynchronous notice for the same request (expiry of the hold it was granted) passes the filter and is delivered as a second answer, shifting every later reply on the connection", x.St.Trace)
+				}
+			},
+		})
+		ex.NoHist = true
+		ex.Run(fn, nil)
+		if ex.Imprecise != "" {
+			r.Fail("C03/R6 %s: %s", name, ex.Imprecise)
+		}
+	}
+	if n == 0 {
+		r.Fail("C03/R6: no hand-over (send on lockWaiter) found in TextServerProtocol")
+	}
+}
+
+func isZeroValue(v ssa.Value) bool {
+	c, ok := v.(*ssa.Const)
+	return ok && c.Value == nil
 }
